@@ -14,7 +14,11 @@ Definition blk_members (g : Z) (b : block) : list (Z * xval) :=
   map (fun t => (fst t, snd (snd t)))
       (filter (fun t => fst (snd t) =? g) (zip_pos (combine (b_codes b) (b_vals b)) (b_off b))).
 
-Definition blk_vals (g : Z) (b : block) : list xval := map snd (blk_members g b).
+(* values of the members of group g, in order (positions dropped) *)
+Definition vals_of (g : Z) (codes : list Z) (vals : list xval) : list xval :=
+  map snd (filter (fun p => fst p =? g) (combine codes vals)).
+
+Definition blk_vals (g : Z) (b : block) : list xval := vals_of g (b_codes b) (b_vals b).
 
 (* cut (codes, vals) into consecutive blocks of the given sizes *)
 Fixpoint cut_blocks (sizes : list nat) (off : Z) (codes : list Z) (vals : list xval) : list block :=
@@ -42,18 +46,19 @@ Definition eff_combine (a : AggDesc) (mc : Z) : list opname :=
 Definition leaf_interm (chs : list opname) (g : Z) (b : block) : list xval :=
   map (fun ch => kern ch (blk_vals g b)) chs.
 
-Fixpoint enum_from {A} (i : nat) (l : list A) : list (nat * A) :=
-  match l with [] => [] | x :: r => (i, x) :: enum_from (S i) r end.
-
-Definition node_comb (cbs : list opname) (children : list (list xval)) : list xval :=
-  map (fun ic => kern (snd ic) (map (fun c => nth (fst ic) c NaN) children)) (enum_from 0 cbs).
+(* n-ary combine of the children's tuples, component by component *)
+Fixpoint node_comb (cbs : list opname) (children : list (list xval)) : list xval :=
+  match cbs with
+  | [] => []
+  | cb :: r => kern cb (map (hd NaN) children) :: node_comb r (map (@tl xval) children)
+  end.
 
 Definition tree_interm (chs cbs : list opname) (g : Z) (t : tree block) : list xval :=
   teval (leaf_interm chs g) (node_comb cbs) t.
 
 (* ---- grouped combine: only blocks in which the group occurs take part ---- *)
 Definition leaf_interm_g (chs : list opname) (g : Z) (b : block) : option (list xval) :=
-  match blk_members g b with
+  match blk_vals g b with
   | [] => None
   | _ => Some (leaf_interm chs g b)
   end.
